@@ -10,7 +10,7 @@ Harnesses (all on the repository's current source):
 """
 import itertools
 
-from vf import symx, symnp, loader
+from vf import symx, symnp, loader, cast
 from vf.symx import sym_and, sym_or, sym_not, sym_ite, sym_sum, wrap, SReal
 import z3
 
@@ -64,6 +64,10 @@ def configs(tier):
     for N in eqN:
         for nb in (1, 2, 3):
             out.append(("equiv", "raw", N, nb, False, False))
+    # data that is a strided view of a longer array, both engines
+    for engine in ("py", "c"):
+        out.append((engine, "binsize+strided", 2, 2, False, False))
+        out.append((engine, "nbin+strided", 2, 2, True, True))
     # the bin-index kernel over IEEE floats (reduced width: half precision quick, single thorough)
     out.append(("fpequiv", "f16" if tier == "quick" else "f32", 1, 2, False, False))
     return out
@@ -90,7 +94,14 @@ def harness(cx, cfg):
     mx = cx.real("max") if hasmax else None
     lo = mn if hasmin else symnp._minimum_cells(xs)
     hi = mx if hasmax else symnp._maximum_cells(xs)
-    data = symnp.array(xs)
+    strided = mode.endswith("+strided")
+    mode = mode.split("+")[0]
+    if strided:
+        # the caller's data is every other element of a longer array
+        pads = [cx.real("pad%d" % i) for i in range(N)]
+        data = symnp.array([v for pr in zip(xs, pads) for v in pr])[::2]
+    else:
+        data = symnp.array(xs)
     kw = {}
     if mode == "binsize":
         bs = cx.real("binsize")
@@ -106,6 +117,9 @@ def harness(cx, cfg):
     inrange = [sym_and(x >= lo, x <= hi) for x in xs]
     try:
         h, rev = m.histogram(data, min=mn, max=mx, rev=True, **kw)
+    except cast.CError as e:
+        cx.fail("histogram of %s data: the C engine %s" % ("strided" if strided else "contiguous", e))
+        return
     except ValueError as e:
         # documented: no data inside [min,max]
         if "No data in specified min/max range" in str(e):
@@ -294,7 +308,6 @@ def _oracle(x, lo, hi, bsz, nbin):
 
 def replay(cand):
     import numpy as np
-    import esutil.stat.util as su
     from vf.symx import model_float
     engine, mode, N, nb, hasmin, hasmax = cand["cfg"]
     mdl = cand["model"]
@@ -302,6 +315,8 @@ def replay(cand):
         return replay_equiv(cand)
     if engine == "fpequiv":
         return replay_fpequiv(cand)
+    strided = mode.endswith("+strided")
+    mode = mode.split("+")[0]
     x = np.array([model_float(mdl["x%d" % i]) for i in range(N)], dtype="f8")
     kw = {}
     if hasmin:
@@ -312,6 +327,34 @@ def replay(cand):
         kw["binsize"] = model_float(mdl["binsize"])
     else:
         kw["nbin"] = nb
+    trials = [(x, kw)]
+    # companions: the same call shape on longer arrays with many tied values (NumPy's default sort is
+    # unstable only beyond a handful of elements) -- the statement orders ties by original position
+    rs = np.random.RandomState(7)
+    for n in (24, 40, 64):
+        xc = rs.randint(0, 5, n).astype("f8") * 0.5
+        kc = {"nbin": 3} if mode == "nbin" else {"binsize": 0.75}
+        if hasmin:
+            kc["min"] = -0.25
+        if hasmax:
+            kc["max"] = 2.5
+        trials.append((xc, kc))
+    last = None
+    for xt, kt in trials:
+        if strided:
+            big = np.empty(2 * xt.size, dtype="f8")
+            big[::2] = xt
+            big[1::2] = -777.0
+            xt = big[::2]
+        last = _replay_one(engine, mode, xt, kt, nb, strided)
+        if last["reproduced"]:
+            return last
+    return last
+
+
+def _replay_one(engine, mode, x, kw, nb, strided):
+    import numpy as np
+    import esutil.stat.util as su
     old = su.have_chist
     su.have_chist = (engine == "c") and old
     try:
@@ -332,10 +375,10 @@ def replay(cand):
     if mode == "binsize":
         bsz = kw["binsize"]
     else:
-        bsz = float(hi - lo) / nb
+        bsz = float(hi - lo) / kw["nbin"]
     nbin = h.size
     members = _oracle(x.tolist(), lo, hi, bsz, nbin)
-    call = "histogram(%r, rev=True, %s) [%s engine]" % (x.tolist(), ", ".join("%s=%r" % kv for kv in sorted(kw.items())), engine)
+    call = "histogram(%r%s, rev=True, %s) [%s engine]" % (x.tolist(), " (a strided view)" if strided else "", ", ".join("%s=%r" % kv for kv in sorted(kw.items())), engine)
     want_h = [len(mm) for mm in members]
     if h.tolist() != want_h:
         return {"reproduced": True, "key": "hist-counts:" + mode,
